@@ -4,18 +4,18 @@
 (* one unary minus; emits tokens, the model's tree and (where defined) its value.    *)
 EXTENDS MechFormula, TLC, Json
 
-CONSTANTS OpsAlphabet, MaxOps
+CONSTANTS OpsAlphabet, MaxOps, Unaries
 
 VARIABLE toks
 
 Vals == <<IntV(7), IntV(2), IntV(3), IntV(5), IntV(4)>>
-Operand(i, neg) == [neg |-> neg, v |-> Vals[i]]
+Operand(i, un) == [neg |-> un = "neg", un |-> un, v |-> Vals[i]]
 
-Init == \E neg \in BOOLEAN : toks = <<Operand(1, neg)>>
+Init == \E un \in Unaries : toks = <<Operand(1, un)>>
 Next == /\ Len(toks) < 2 * MaxOps + 1
-        /\ \E op \in OpsAlphabet, neg \in BOOLEAN :
-             /\ (neg => \A i \in 1..Len(toks) : (i % 2 = 1 => ~toks[i].neg))   \* at most one unary minus
-             /\ toks' = toks \o <<op, Operand((Len(toks) + 1) \div 2 + 1, neg)>>
+        /\ \E op \in OpsAlphabet, un \in Unaries :
+             /\ (un # "none" => \A i \in 1..Len(toks) : (i % 2 = 1 => toks[i].un = "none"))   \* at most one unary mark
+             /\ toks' = toks \o <<op, Operand((Len(toks) + 1) \div 2 + 1, un)>>
 Spec == Init /\ [][Next]_toks
 
 ClimbEqDecl == Tree(toks) = TreeD(toks)
